@@ -122,6 +122,34 @@ pub fn gen(stream: &str, tier: &str, seed: u64) -> Vec<String> {
                     }
                 }
             }
+            // characters an implementation might treat specially (BOM, non-characters, white space, …) at the
+            // start, inside and at the end of representative texts
+            for sp in crate::pgen::SPECIALS {
+                for base in ["", "a", "a/b", "$share/g/t", "$SYS/x", "+", "#", "a/+/b", "a/#", "/"] {
+                    for st in [format!("{}{}", sp, base), format!("{}{}", base, sp), format!("{}{}{}", sp, base, sp)] {
+                        out.push(format!("{} {}", op, hex_or_dash(st.as_bytes())));
+                    }
+                    if let Some(i) = base.find('/') {
+                        out.push(format!("{} {}", op, hex(format!("{}{}{}", &base[..i + 1], sp, &base[i + 1..]).as_bytes())));
+                        out.push(format!("{} {}", op, hex(format!("{}{}{}", &base[..i], sp, &base[i..]).as_bytes())));
+                    }
+                }
+            }
+            // offending values that an error path might echo, truncate or format: long multi-byte texts at
+            // every alignment around 32 / 64 / 128 / 256 / 512 / 1024 bytes (invalid: wildcard inside)
+            for unit in ["é", "你", "😀"] {
+                for target in [31usize, 32, 33, 63, 64, 65, 127, 128, 129, 255, 256, 257, 511, 512, 513, 1023, 1024, 1025] {
+                    for pad in 0..4usize {
+                        let mut st = "a".repeat(pad);
+                        while st.len() < target + 4 {
+                            st.push_str(unit);
+                        }
+                        out.push(format!("{} {}", op, hex(st.as_bytes())));
+                        out.push(format!("{} {}", op, hex(format!("{}+x#", st).as_bytes())));
+                        out.push(format!("{} {}", op, hex(format!("+{}", st).as_bytes())));
+                    }
+                }
+            }
             // long strings whose length in BYTES, in CHARS and in UTF-16 units differ, around the limits an
             // implementation might apply in the wrong unit (32,767 / 32,768 / 65,535)
             for (unit, per) in [("a", 1usize), ("é", 2), ("你", 3), ("😀", 4)] {
@@ -160,6 +188,43 @@ pub fn gen(stream: &str, tier: &str, seed: u64) -> Vec<String> {
                 let len = 1 + rng.below(5) as usize;
                 let bytes: Vec<u8> = (0..len).map(|_| rng.next() as u8).collect();
                 out.push(format!("{} {}", op, hex(&bytes)));
+            }
+        }
+        "tfcmp" => {
+            // pairs of filters: a sample of the tf stream's valid texts (validity by the independent rule),
+            // plus FAMILIES of related shared filters — share names / filters extended by one character
+            // below, at and above '/' — all pairs within the sample
+            let texts: Vec<String> = gen("tf", tier, seed)
+                .iter()
+                .filter_map(|l| crate::fmt::unhex(l.split(' ').nth(1).unwrap_or("")).and_then(|b| String::from_utf8(b).ok()))
+                .filter(|s| s.len() <= 24 && crate::oracle::spec_filter(s).is_some())
+                .collect();
+            let mut pool: Vec<String> = Vec::new();
+            let shared: Vec<&String> = texts.iter().filter(|s| s.starts_with("$share/")).collect();
+            for s in shared.iter().step_by((shared.len() / 12).max(1)).take(12) {
+                let rest = &s[7..];
+                if let Some(i) = rest.find('/') {
+                    let (g, f) = (&rest[..i], &rest[i + 1..]);
+                    pool.push(s.to_string());
+                    for c in [" ", "!", "$", "-", ".", "0", "a", "\u{7f}", "é", "\u{1}"] {
+                        pool.push(format!("$share/{}{}/{}", g, c, f));
+                        pool.push(format!("$share/{}/{}{}", g, f.trim_end_matches('#').trim_end_matches('+'), c));
+                    }
+                    pool.push(format!("{}/{}", g, f));
+                }
+            }
+            let want = if thorough { 700 } else { 260 };
+            pool.extend(texts.iter().step_by((texts.len() / (want / 2)).max(1)).cloned());
+            pool.retain(|s| crate::oracle::spec_filter(s).is_some());
+            pool.sort();
+            pool.dedup();
+            let step = (pool.len() / want).max(1);
+            let pool: Vec<&String> = pool.iter().step_by(step).collect();
+            for (i, a) in pool.iter().enumerate() {
+                for (j, b) in pool.iter().enumerate().skip(i) {
+                    let (x, y) = if (i + j) % 2 == 0 { (a, b) } else { (b, a) };
+                    out.push(format!("tfcmp {} {}", hex(x.as_bytes()), hex(y.as_bytes())));
+                }
             }
         }
         "utf8" => {
@@ -272,6 +337,7 @@ pub fn gen(stream: &str, tier: &str, seed: u64) -> Vec<String> {
                 }
             }
             if stream == "v3poll" {
+                out.extend(short_poll_schedules("v3"));
                 // exhaustive compositions (+ Pending before any read, drop at any Pending) for short packets of every type
                 for t in 0..V3_TYPES {
                     let mut tries = 0;
@@ -387,6 +453,7 @@ pub fn gen(stream: &str, tier: &str, seed: u64) -> Vec<String> {
                 }
             }
             if stream == "v5poll" {
+                out.extend(short_poll_schedules("v5"));
                 for t in 0..V5_TYPES {
                     let mut tries = 0;
                     loop {
@@ -527,6 +594,25 @@ pub fn gen(stream: &str, tier: &str, seed: u64) -> Vec<String> {
                                 out.push(format!("poll {} {} - eof", fam, hex(&f)));
                             }
                         }
+                    }
+                }
+            }
+        }
+        "v5props" | "v5propss" => {
+            // property sections built by hand, independently of the encoder: random subsets of the
+            // standard's identifiers in RANDOM ORDER (the encoder always emits one fixed order), user
+            // properties interleaved, occasional duplicates and identifiers foreign to the host packet,
+            // boundary values, at each of the 14 property-carrying positions
+            let as_spec = stream.ends_with("ss");
+            let n = if thorough { 4000 } else { 500 };
+            for host in crate::tables::PROP_HOSTS {
+                for i in 0..n {
+                    let f = props_frame(&mut rng, host, i);
+                    if as_spec {
+                        out.push(format!("spec v5 {}", hex(&f)));
+                    } else {
+                        out.push(format!("dec v5 {}", hex(&f)));
+                        out.push(format!("poll v5 {} - eof", hex(&f)));
                     }
                 }
             }
@@ -687,7 +773,7 @@ pub fn gen(stream: &str, tier: &str, seed: u64) -> Vec<String> {
                     f.push(level);
                     out.push(format!("proto {}", hex(&f)));
                     // and as a whole CONNECT through both families' packet decoders
-                    if matches!(level, 3 | 4 | 5) && name.len() != 0 {
+                    if matches!(level, 3 | 4 | 5) && name.len() != 0 && name.len() < 100 {
                         let mut body = f.clone();
                         body.extend_from_slice(&[2, 0, 10]);
                         if level == 5 {
@@ -821,7 +907,197 @@ pub fn proto_names() -> Vec<Vec<u8>> {
         names.push(base.to_ascii_lowercase());
         names.push(base.to_ascii_uppercase());
     }
+    // long unknown names, multi-byte characters at every alignment (an error path may echo or clip them)
+    for unit in ["é", "你", "😀"] {
+        for target in [31usize, 32, 33, 63, 64, 65, 255, 256, 257] {
+            for pad in 0..4usize {
+                let mut st = "M".repeat(pad);
+                while st.len() < target + 4 {
+                    st.push_str(unit);
+                }
+                names.push(st.into_bytes());
+            }
+        }
+    }
     names.push(b"MQTTdp".to_vec());
     names.push(b"MQIs".to_vec());
     names
+}
+
+fn put_varint(out: &mut Vec<u8>, mut n: usize) {
+    loop {
+        let mut b = (n % 128) as u8;
+        n /= 128;
+        if n > 0 {
+            b |= 0x80;
+        }
+        out.push(b);
+        if n == 0 {
+            break;
+        }
+    }
+}
+
+/// One property with a random well-formed (mostly) value; wire types from MQTT 5.0 table 2-4.
+fn random_property(rng: &mut Rng, id: u8) -> Vec<u8> {
+    let mut v = vec![id];
+    let text = |rng: &mut Rng| -> Vec<u8> { rng.pick(&["", "a", "t/x", "é", "你好", "a/+", "$share/g/t", "😀"]).as_bytes().to_vec() };
+    match id {
+        0x01 | 0x17 | 0x19 | 0x24 | 0x25 | 0x28 | 0x29 | 0x2a => v.push(*rng.pick(&[0u8, 1, 1, 0, 2, 255])),
+        0x13 | 0x21 | 0x22 | 0x23 => v.extend_from_slice(&rng.pick(&[0u16, 1, 1, 255, 256, 65535]).to_be_bytes()),
+        0x02 | 0x11 | 0x18 | 0x27 => v.extend_from_slice(&rng.pick(&[0u32, 1, 1, 65536, u32::MAX, 268435456]).to_be_bytes()),
+        0x03 | 0x08 | 0x09 | 0x12 | 0x15 | 0x16 | 0x1a | 0x1c | 0x1f => {
+            let t = text(rng);
+            v.extend_from_slice(&(t.len() as u16).to_be_bytes());
+            v.extend_from_slice(&t);
+        }
+        0x0b => put_varint(&mut v, *rng.pick(&[0usize, 1, 1, 127, 128, 16383, 16384, 268435455])),
+        0x26 => {
+            for _ in 0..2 {
+                let t = text(rng);
+                v.extend_from_slice(&(t.len() as u16).to_be_bytes());
+                v.extend_from_slice(&t);
+            }
+        }
+        _ => v.push(0),
+    }
+    v
+}
+
+const STD_IDS: [u8; 27] = [0x01, 0x02, 0x03, 0x08, 0x09, 0x0b, 0x11, 0x12, 0x13, 0x15, 0x16, 0x17, 0x18, 0x19, 0x1a, 0x1c, 0x1f, 0x21, 0x22, 0x23, 0x24, 0x25, 0x26, 0x27, 0x28, 0x29, 0x2a];
+
+/// The standard's property table (MQTT 5.0 §2.2.2.2, column "Packet / Will Properties").
+fn std_allowed(host: &str) -> &'static [u8] {
+    match host {
+        "connect" => &[0x11, 0x15, 0x16, 0x17, 0x19, 0x21, 0x22, 0x27, 0x26],
+        "will" => &[0x01, 0x02, 0x03, 0x08, 0x09, 0x18, 0x26],
+        "connack" => &[0x11, 0x12, 0x13, 0x15, 0x16, 0x1a, 0x1c, 0x1f, 0x21, 0x22, 0x24, 0x25, 0x26, 0x27, 0x28, 0x29, 0x2a],
+        "publish" => &[0x01, 0x02, 0x03, 0x08, 0x09, 0x0b, 0x23, 0x26],
+        "puback" | "pubrec" | "pubrel" | "pubcomp" | "suback" | "unsuback" => &[0x1f, 0x26],
+        "subscribe" => &[0x0b, 0x26],
+        "unsubscribe" => &[0x26],
+        "disconnect" => &[0x11, 0x1c, 0x1f, 0x26],
+        _ => &[0x15, 0x16, 0x1f, 0x26],
+    }
+}
+
+fn props_frame(rng: &mut Rng, host: &str, i: usize) -> Vec<u8> {
+    let allowed = std_allowed(host);
+    let mut ids: Vec<u8> = Vec::new();
+    match i % 5 {
+        0 => ids.extend(allowed.iter().cloned()), // all of them …
+        1 => ids.extend(allowed.iter().cloned().filter(|_| rng.chance(1, 2))),
+        2 => ids.extend(allowed.iter().cloned().filter(|_| rng.chance(1, 4))),
+        3 => {
+            // … one duplicated (a protocol error except for the user property / subscription identifier)
+            ids.extend(allowed.iter().cloned().filter(|_| rng.chance(1, 2)));
+            if !ids.is_empty() {
+                let d = *rng.pick(&ids);
+                ids.push(d);
+            }
+        }
+        _ => {
+            // … one identifier that does not belong here
+            ids.extend(allowed.iter().cloned().filter(|_| rng.chance(1, 3)));
+            ids.push(*rng.pick(&STD_IDS));
+        }
+    }
+    for _ in 0..rng.below(3) {
+        ids.push(0x26);
+    }
+    // random order
+    for k in (1..ids.len()).rev() {
+        let j = rng.below(k as u64 + 1) as usize;
+        ids.swap(k, j);
+    }
+    let mut props = Vec::new();
+    for id in ids {
+        props.extend(random_property(rng, id));
+    }
+    let mut section = Vec::new();
+    put_varint(&mut section, props.len());
+    section.extend_from_slice(&props);
+    let reason: u8 = if rng.chance(1, 8) {
+        3 // in no reason-code table
+    } else {
+        match host {
+            "connack" => *rng.pick(&[0u8, 0x80, 0x87, 0x9f]),
+            "puback" | "pubrec" => *rng.pick(&[0u8, 0x10, 0x80, 0x99]),
+            "pubrel" | "pubcomp" => *rng.pick(&[0u8, 0x92]),
+            "disconnect" => *rng.pick(&[0u8, 4, 0x80, 0x8e, 0xa2]),
+            _ => *rng.pick(&[0u8, 0x18, 0x19]),
+        }
+    };
+    let (first, body): (u8, Vec<u8>) = match host {
+        "connect" => (0x10, [&[0, 4, b'M', b'Q', b'T', b'T', 5, 2, 0, 0][..], &section, &[0, 1, b'c']].concat()),
+        "will" => (0x10, [&[0, 4, b'M', b'Q', b'T', b'T', 5, 6, 0, 0, 0, 0, 1, b'c'][..], &section, &[0, 1, b't', 0, 2, b'h', b'i']].concat()),
+        "connack" => (0x20, [&[*rng.pick(&[0u8, 1]), reason][..], &section].concat()),
+        "publish" => (*rng.pick(&[0x30u8, 0x31, 0x32, 0x3b]), if rng.chance(1, 2) { [&[0, 1, b't'][..], &section, b"pay"].concat() } else { [&[0, 0][..], &section].concat() }),
+        "puback" => (0x40, [&[0, 1, reason][..], &section].concat()),
+        "pubrec" => (0x50, [&[0, 1, reason][..], &section].concat()),
+        "pubrel" => (0x62, [&[0, 1, reason][..], &section].concat()),
+        "pubcomp" => (0x70, [&[0, 1, reason][..], &section].concat()),
+        "subscribe" => (0x82, [&[0, 1][..], &section, &[0, 1, b't', *rng.pick(&[0u8, 1, 2, 0x2c, 0x14])]].concat()),
+        "suback" => (0x90, [&[0, 1][..], &section, &[*rng.pick(&[0u8, 1, 2, 0x80, 0x87])]].concat()),
+        "unsubscribe" => (0xa2, [&[0, 1][..], &section, &[0, 1, b't']].concat()),
+        "unsuback" => (0xb0, [&[0, 1][..], &section, &[*rng.pick(&[0u8, 0x11, 0x80])]].concat()),
+        "disconnect" => (0xe0, [&[reason][..], &section].concat()),
+        _ => (0xf0, [&[reason][..], &section].concat()),
+    };
+    // a qos>0 PUBLISH needs its packet identifier between topic and properties
+    let body = if host == "publish" && (first & 0x06) != 0 {
+        let tl = 2 + (((body[0] as usize) << 8) | body[1] as usize);
+        [&body[..tl], &[0, 7][..], &body[tl..]].concat()
+    } else {
+        body
+    };
+    let mut f = vec![first];
+    put_varint(&mut f, body.len());
+    f.extend_from_slice(&body);
+    f
+}
+
+/// EXHAUSTIVE short streams under every placement of one Pending: all 1-byte and a fifth of the 2-byte
+/// streams, and every control byte followed by each unfinished / over-long length-field shape, with a
+/// Pending (or a Pending + drop of the future) before each read position.  Doubly malformed streams
+/// (bad control byte AND bad length field) are exactly where "fail fast" shortcuts become
+/// schedule-dependent.
+pub fn short_poll_schedules(fam: &str) -> Vec<String> {
+    let mut out = Vec::new();
+    let mut emit = |bytes: &[u8]| {
+        let h = hex(bytes);
+        let n = bytes.len();
+        for term in ["eof", "err:ConnectionReset"] {
+            out.push(format!("poll {} {} - {}", fam, h, term));
+            for at in 0..=n {
+                for pend in ["p", "d"] {
+                    let mut items: Vec<String> = Vec::new();
+                    for k in 0..n {
+                        if k == at {
+                            items.push(pend.to_string());
+                        }
+                        items.push("c1".into());
+                    }
+                    if at == n {
+                        items.push(pend.to_string());
+                    }
+                    out.push(format!("poll {} {} {} {}", fam, h, items.join(","), term));
+                }
+            }
+        }
+    };
+    for a in 0..=255u8 {
+        emit(&[a]);
+        for tail in [&[0x80u8][..], &[0x80, 0x80], &[0xff, 0xff, 0xff], &[0xff, 0xff, 0xff, 0xff], &[0xff, 0xff, 0xff, 0xff, 0x7f], &[0xff, 0xff, 0xff, 0x7f], &[0x00], &[0x01], &[0x02, 0x00]] {
+            let mut v = vec![a];
+            v.extend_from_slice(tail);
+            emit(&v);
+        }
+    }
+    for a in 0..=255u8 {
+        for b in (0..=255u8).step_by(5) {
+            emit(&[a, b]);
+        }
+    }
+    out
 }
